@@ -109,6 +109,11 @@ func (c *client) Lint(
 		return err
 	}
 	logRulesConfig(c.logger, config.rulesConfig)
+	if len(config.RuleIDs) == 0 {
+		// No rules are configured, there is nothing to check. We cannot make a request, as a
+		// check.Request without RuleIDs means all default rules.
+		return nil
+	}
 	files, err := descriptor.FileDescriptorsForProtoFileDescriptors(imageToProtoFileDescriptors(image))
 	if err != nil {
 		// If a validated Image results in an error, this is a system error.
@@ -174,6 +179,11 @@ func (c *client) Breaking(
 		return err
 	}
 	logRulesConfig(c.logger, config.rulesConfig)
+	if len(config.RuleIDs) == 0 {
+		// No rules are configured, there is nothing to check. We cannot make a request, as a
+		// check.Request without RuleIDs means all default rules.
+		return nil
+	}
 	fileDescriptors, err := descriptor.FileDescriptorsForProtoFileDescriptors(imageToProtoFileDescriptors(image))
 	if err != nil {
 		// If a validated Image results in an error, this is a system error.
